@@ -65,7 +65,58 @@ def ob_tld(info):
     return []
 
 
+def ob_c02_sites(info):
+    """Name the panic-capable sites that are neither discharged by a guard certificate nor in the committed review
+    for their present context (Lean's all_sites_accounted decides; this mirror only names them and picks the lints
+    to aim the search at)."""
+    import os
+    from c02sites import unaccounted, site_key
+    f = _load("facts.json")
+    vdir = os.path.dirname(os.path.dirname(os.path.abspath(__file__)))
+    try:
+        reviewed = json.load(open(os.path.join(vdir, "c02_reviewed_sites.json"))).get("sites", [])
+    except Exception:
+        reviewed = []
+    un = unaccounted(f.get("sites") or [], reviewed)
+    out = []
+    focus = set()
+    for s, why in un:
+        reach = [r["name"] for r in f["registrations"] if s["func"] in (r.get("reach") or [])]
+        focus.update(reach[:12])
+        out.append(("panic-capable site %s `%s` in %s (%s) is not guarded by any recognised schema (%s%s) and is %s" % (
+            s["kind"], s["expr"][:80], s["func"].replace("github.com/zmap/zlint/v3/", ""), s["pos"], s["schema"],
+            (": " + s["note"]) if s.get("note") else "", why),
+            {"site": s, "reached_from_lints": reach[:20], "why": why}, "site:" + site_key(s)))
+    info["c02_focus"] = sorted(focus)[:40]
+    cur = {(site_key(s), s["ctx"]) for s in (f.get("sites") or [])}
+    stale = [r for r in reviewed if (r["key"], r["ctx"]) not in cur]
+    for r in stale:
+        if not any(r["key"] == site_key(s) for s, _ in un):
+            out.append(("reviewed entry %s no longer matches any site (stale review list)" % r["key"], {"entry": r}, "stale-review:" + r["key"]))
+    return out
+
+
+def dyn_c02(info):
+    if info.get("c02_focus"):
+        return [("sweep", "C02@" + ",".join(info["c02_focus"]))]
+    return []
+
+
 PROPS = {
+    "C02": {
+        "proofs": ["ZlProofs.Props.C02"],
+        "corr": ["walkers"],
+        "search": [("sweep", "C02")],
+        "obligations": [ob_c02_sites],
+        "dyn_search": dyn_c02,
+        "trusted_base": TB_COMMON + ["the SSA site census of extract/sites.go: which instructions can panic, dominating branch conditions, value identity of loads (flow-aware), facts implied by CheckApplies",
+                                     "the committed review /verif/c02_reviewed_sites.json (sites no schema discharges, each valid only for its context hash)"],
+        "assumptions": ["A-LIB: library functions called by lint bodies (asn1, regexp, url, idna, publicsuffix, cryptobyte, big, utf8, reflect) do not panic on the arguments passed",
+                        "A-PARSE-*: facts about parser output named per entry in the review file (non-nil key/SCT/descriptor pointers, well-formed time strings, one-octet BOOLEANs, pkix.Name slices nil-or-non-empty)",
+                        "A-ERRPAIR: a (value, err) result with err == nil carries a non-nil value",
+                        "no-hang is enforced only as a harness timeout"],
+        "partial": "panic-freedom of the ~340 rule bodies is not a theorem: it is reduced (proved) to panic-freedom of their stages, every index/slice/assert/deref/division site in them is enumerated from the source on every run and either discharged by a kernel-checked certificate or reviewed, and library calls are assumed (A-LIB); walkers with computed indices are proved total",
+    },
     "C01": {
         "proofs": ["ZlProofs.Props.C01"],
         "corr": ["framework"],
@@ -306,6 +357,10 @@ CLAIMS.update({
             "text": "interleaving_eq_sequential holds for every schedule of threads whose calls leave the shared world unchanged; that the code's lint and registry-read operations are such calls is decided by the kernel over regenerated footprints (registry_readers_readonly, lock_discipline, steps_preserve_shared). Search: a -race build running 16 linting goroutines plus 6 registry readers at GOMAXPROCS 16/2/1 with the first registry use inside the concurrent phase, results compared with the same calls made alone.",
             "note": "Partial: no race-freedom claim at proof level; third-party code and the Go memory model are outside the model."},
 })
+
+CLAIMS["C02"] = {"technique": "Lean 4 proof (recovered-panic iff a stage panics; totality of checked-index walker models) + kernel re-check of guard certificates for every panic-capable site regenerated from the source (SSA) against a committed review + walker correspondence + structure-aware mutation search",
+    "text": "cert_recovered_iff / unrecovered_panic_iff / panic_free_never_recovered hold for every lint behaviour, object and configuration; controlChar_total, parseBMPUnits_total, isNameAttribute_total, v6_indices_in_range hold for every input; all_sites_accounted: each of the ~1,100 index / slice / type-assertion / nil-dereference / division / nil-map sites reachable from any lint (regenerated on every run) carries a guard certificate whose arithmetic the kernel re-checks (sound by Lemmas/Sites) or is in the committed review for exactly its present context (enclosing function, the CheckApplies bodies that reach it, its callers). Tie: the walkers through the real lint + framework on every short byte string; search: corpus + parser-accepted structural mutants, focused on the lints that reach any site whose obligation broke.",
+    "note": "Partial: A-LIB, A-PARSE-*, A-ERRPAIR and the extractor's dominator/value-identity reading are trusted. The explicitText out-of-range read was a genuine defect, repaired by fix: 0ccbc55."}
 
 CLAIMS["C11"] = {"technique": "Lean 4 proof (locality, error locality, no-leak state machine) over a typed-field model of configuration + correspondence on generated TOML",
     "text": "locality / absent_is_default / other_lints_unaffected / not_a_table_is_error / error_local / no_leak_r1 / filter_inherits / defaults_roundtrip_partial hold for all documents, specs and operation sequences. Tie: probe lints (certificate, CRL, one embedding Global) echoing their configured fields under generated TOML (well-typed, ill-typed, scalar/array/array-of-tables where a table is expected, unknown keys, unrelated sections) and SetConfiguration/Filter/lint sequences; the real configurable lints, DefaultConfiguration (valid TOML, a section per configurable lint, no verdict change) and error locality on the real registry.",
